@@ -211,7 +211,19 @@ def tokens_from_case(case):
     return toks
 
 
+_VOID = frozenset("area base br col embed hr img input link meta param source track wbr".split())
+
+
+def name_tokens(name):
+    if name in _VOID:
+        return [chars("a  b"), st("pre"), empty(name), chars("c  d"), et("pre"), chars("e  f"), empty(name), chars(" g  h")]
+    return [chars("a  b"), st(name), chars("c  d"), st("b"), chars(" \n x"), et("b"), et(name), chars("e  f")]
+
+
 def execute(config, case):
+    if config.get("mode") == "names":
+        j = judge(name_tokens(case[0]["name"]))
+        return None if j is None else engine.Violation(H, config, case, "reference", j[2], j[0], "names:" + j[1])
     toks = tokens_from_case(case)
     if config.get("mode") == "arbitrary":
         j = judge_passthrough(toks)
@@ -287,6 +299,19 @@ def run(run):
             seen[v.diff_class] = v
     for v in seen.values():
         run.violation(v)
+    # element-name sweep: which elements preserve whitespace is decided per name (two name tables in constants.py)
+    from checks import treewords as tw
+    nsweep = 0
+    for name in tw.ALL_NAMES:
+        toks = name_tokens(name)
+        nsweep += 1
+        j = judge(toks)
+        if j is not None:
+            seen.setdefault("names:" + j[1], engine.Violation(H, {"mode": "names"}, [{"name": name}], "reference transducer output", j[2], j[0], "names:" + j[1]))
+    run.set("name_sweep_streams", nsweep)
+    for k, v in seen.items():
+        if k.startswith("names:"):
+            run.violation(v)
     arb = {}
     for r in engine.pmap(_arb_shard, range(len(ARB)), chunksize=1):
         run.add("arbitrary_streams", r["evals"])
